@@ -38,17 +38,19 @@ ASSUMPTIONS = [
     ">= 2: the statement only demands an answer for single-ray problems and for mode None",
 ]
 
-QUICK = ["tiny_q", "s3_q", "s4k2_q", "s4k3_q", "chg_q", "scale_q", "fine4_q", "fine5_q", "dupl_q", "dupl2_q"]
+QUICK = ["tiny_q", "s3_q", "s4k2_q", "s4k3_q", "chg_q", "scale_q", "fine4_q", "fine5_q", "forms_q", "loose_q",
+         "dupl_q", "dupl2_q"]
 THOROUGH = ["tiny_q", "s3_q", "s3_t", "s4k2_q", "s4k3_q", "s4k3_t", "s5_t", "chg_q", "chg_t", "scale_q",
-            "fine4_q", "fine5_q",
+            "fine4_q", "fine5_q", "forms_q", "loose_q",
             "dupl_q", "dupl2_q", "dupl_t"]
 ACTIONS = {
-    "tiny_q": ["GenShape", "GenSetEntry", "Classify", "GenMode", "GenAccept"],
+    "tiny_q": ["GenShape", "GenSetEntry", "Classify", "GenMode", "ChooseForm", "GenAccept"],
     "dupl_q": ["GenDupl"],
 }
 # replay budget (problems x modes) per slice: None = everything
-QUICK_PER_SLICE = 1000
-THOROUGH_PER_SLICE = {"fine4_q": 6000, "s3_q": 12000, "s3_t": 24000, "s4k3_t": 36000, "chg_t": 24000, "dupl_t": 6000}
+QUICK_PER_SLICE = 700
+QUICK_PER_SLICE_SPECIAL = {"fine4_q": 300}
+THOROUGH_PER_SLICE = {"forms_q": 24000, "loose_q": 12000, "fine4_q": 6000, "s3_q": 12000, "s3_t": 24000, "s4k3_t": 36000, "chg_t": 24000, "dupl_t": 6000}
 
 # atomic number standing for row k (the charge row is key 0)
 ROW_KEYS = [1, 6, 8, 7, 16, 17, 11, 19, 20, 26, 29, 30, 12, 13, 15, 9, 35, 53, 25, 24]
@@ -58,22 +60,36 @@ FN = "balance_stoichiometry"
 
 
 # ----------------------------------------------------------------------------- building inputs
+DEFAULT_FORM = {"set": True, "cont": "list", "naming": "plain", "subst": "map", "psym": "default",
+                "num": "int", "calls": 1, "modearg": "plain", "allow": False}
+
+
+def _form(inp):
+    return inp.get("form") or DEFAULT_FORM
+
+
 def _names(inp):
+    """species names; 'reversed': the sorted order of the names is the reverse of the order given
+    (unpadded numbers, so that e.g. R10 sorts before R2)"""
     nr, np_ = inp["nr"], inp["np"]
+    rev = _form(inp)["naming"] == "reversed"
     dup = {tuple(p)[1]: tuple(p)[0] for p in inp["dupl"]}
-    reac = ["R%d" % i for i in range(1, nr + 1)]
-    prod = [("R%d" % dup[j]) if j in dup else ("P%d" % (j - nr)) for j in range(nr + 1, nr + np_ + 1)]
+    rname = {i: "R%d" % ((nr + 1 - i) if rev else i) for i in range(1, nr + 1)}
+    reac = [rname[i] for i in range(1, nr + 1)]
+    prod = [rname[dup[j]] if j in dup else ("P%d" % ((np_ + 1 - (j - nr)) if rev else (j - nr)))
+            for j in range(nr + 1, nr + np_ + 1)]
     return reac, prod
 
 
-def _composition(inp, j):
+def _composition(inp, j, num="int"):
     comp = {}
     for k in range(inp["nk"]):
         v = inp["comp"][k][j]
-        if v == 0:
+        if v == 0 and num != "explicit0":
             continue
         key = 0 if (k + 1) == inp["crow"] else ROW_KEYS[k]
-        comp[key] = v if inp["scale"] == 1 else v / inp["scale"]
+        amount = v if inp["scale"] == 1 else v / inp["scale"]
+        comp[key] = float(amount) if num == "float" else amount
     return comp
 
 
@@ -82,8 +98,41 @@ def build(inp):
     reac, prod = _names(inp)
     subst = {}
     for j, name in enumerate(reac + prod):
-        subst[name] = Substance(name, composition=_composition(inp, j))
+        subst[name] = Substance(name, composition=_composition(inp, j, _form(inp)["num"]))
     return reac, prod, subst
+
+
+def call_args(inp):
+    """(reactants, products, keyword arguments) of the call in the form the case prescribes"""
+    import collections
+    import sympy
+    from chempy import Substance
+    f = _form(inp)
+    reac, prod, subst = build(inp)
+    cont = {"list": list, "tuple": tuple, "set": set, "frozenset": frozenset,
+            "dict": collections.OrderedDict.fromkeys}[f["cont"]]
+    kw = {}
+    if f["subst"] == "map":
+        kw["substances"] = subst
+    elif f["subst"] == "superset":      # unrelated extra entries in the mapping
+        extra = dict(subst)
+        extra["Au_extra"] = Substance("Au_extra", composition={79: 1})
+        extra["e_extra"] = Substance("e_extra", composition={0: -1})
+        kw["substances"] = extra
+    elif f["subst"] == "str":
+        names = list(collections.OrderedDict.fromkeys(reac + prod))
+        kw["substances"] = " ".join(names)
+        kw["substance_factory"] = subst.__getitem__
+    else:
+        kw["substance_factory"] = subst.__getitem__
+    if f["psym"] == "user_int":
+        kw["parametric_symbols"] = sympy.numbered_symbols("q", start=3, integer=True, positive=True)
+    elif f["psym"] == "user_plain":
+        kw["parametric_symbols"] = sympy.numbered_symbols("w")
+    kw["underdetermined"] = 1 if (f["modearg"] == "one" and inp["mode"] == "None") else MODES[inp["mode"]]
+    if f["allow"] or inp["dupl"]:
+        kw["allow_duplicates"] = True
+    return reac, prod, cont(reac), cont(prod), kw
 
 
 # ----------------------------------------------------------------------------- projection
@@ -211,12 +260,19 @@ def _guarded(fn, limit=None):
 def observe(inp):
     """call the real code on the abstract problem; never raises"""
     from chempy import balance_stoichiometry
-    reac, prod, subst = build(inp)
-    kw = {"allow_duplicates": True} if inp["dupl"] else {}
+    reac, prod, creac, cprod, kw = call_args(inp)
+
+    def calls():
+        # the same argument objects (containers, mapping, symbol generator) are used for every call;
+        # the observation is the outcome of the last one
+        for _ in range(_form(inp)["calls"] - 1):
+            try:
+                balance_stoichiometry(creac, cprod, **kw)
+            except Exception:
+                pass
+        return balance_stoichiometry(creac, cprod, **kw)
     try:
-        res = _guarded(lambda: balance_stoichiometry(list(reac), list(prod), substances=subst,
-                                                     underdetermined=MODES[inp["mode"]], **kw),
-                       inp.get("timeout") or (5 if inp["scale"] >= 10 ** 4 else None))
+        res = _guarded(calls, inp.get("timeout") or (3 if inp["scale"] >= 10 ** 4 else None))
     except _CallTimeout:
         return {"k": "unencodable", "sig": "call-timeout"}
     except Exception as e:  # the class name is the observation
@@ -246,6 +302,8 @@ def trace_of(inp, obs):
     if inp["dupl"]:
         ev.append({"ev": "Dupl", "pairs": [list(p) for p in inp["dupl"]]})
     ev.append({"ev": "Mode", "m": inp["mode"]})
+    if inp.get("form"):
+        ev.append({"ev": "Form", "f": inp["form"]})
     o = {k: obs[k] for k in ("k", "exc", "x", "present", "extra", "x0", "vs")}
     ev.append({"ev": "Result", "obs": o})
     return ev
@@ -271,17 +329,34 @@ def hadamard_ok(comp):
     return min(hr, hc) < 32767
 
 
+FORM_KEYS = ("cont", "naming", "subst", "psym", "num", "calls", "modearg", "allow")
+
+
+def rand_form(rng, inp):
+    """a call form for a seeded problem (validated by Balance!ChooseForm in the trace)"""
+    return {"set": True,
+            "cont": rng.choice(["list", "tuple", "set", "frozenset", "dict"]),
+            "naming": rng.choice(["plain", "reversed"]),
+            "subst": rng.choice(["map", "superset", "str", "none"]),
+            "psym": rng.choice(["default", "default", "user_int", "user_plain"]),
+            "num": rng.choice(["int", "int", "float", "explicit0"]),
+            "calls": rng.choice([1, 1, 2]),
+            "modearg": "one" if inp["mode"] == "None" and not inp["dupl"] and rng.random() < 0.3 else "plain",
+            "allow": bool(inp["dupl"]) or rng.random() < 0.3}
+
+
 def problem_text(inp):
     if "formulas" in inp:
         return "%s -> %s" % (" + ".join(inp["formulas"][0]), " + ".join(inp["formulas"][1]))
     reac, prod = _names(inp)
     def sp(j):
-        c = _composition(inp, j)
+        c = _composition(inp, j, _form(inp)["num"])
         return "{" + ",".join("%s:%s" % (k, c[k]) for k in sorted(c)) + "}"
     n = inp["nr"]
     return "%s -> %s" % (" + ".join(sp(j) for j in range(n)),
                          " + ".join(sp(j) for j in range(n, n + inp["np"]))) + \
-        (" dupl=%s" % json.dumps(inp["dupl"]) if inp["dupl"] else "")
+        (" dupl=%s" % json.dumps(inp["dupl"]) if inp["dupl"] else "") + \
+        (" form=%s" % ",".join("%s" % _form(inp)[k] for k in FORM_KEYS) if inp.get("form") else "")
 
 
 def matrix_id(inp):
@@ -301,9 +376,21 @@ def direct_agrees(exp, obs):
     return None
 
 
+def unused_key(inp):
+    """structural signature: "row" if some composition key has amount 0 in every species, "dupl" if it
+    has outside the declared duplicate columns, else "no" """
+    dcols = set(c - 1 for p in inp["dupl"] for c in p)
+    if any(all(v == 0 for v in row) for row in inp["comp"]):
+        return "row"
+    if any(all(v == 0 for j, v in enumerate(row) if j not in dcols) for row in inp["comp"]):
+        return "dupl"
+    return "no"
+
+
 def _key(inp, cls, clause, obs):
     return {"fn": FN, "mode": inp["mode"], "cls": cls, "clause": clause, "sig": obs.get("sig", ""),
-            "scale": inp["scale"], "problem": problem_text(inp)}
+            "scale": inp["scale"], "num": _form(inp)["num"], "unused_key": unused_key(inp),
+            "problem": problem_text(inp)}
 
 
 def _split(clause):
@@ -578,20 +665,53 @@ def _observe_inp(inp):
 
 
 # ----------------------------------------------------------------------------- run
+def _tlc_many(ctx, jobs, workers=4, parallel=4):
+    """run several exhaustive configs concurrently (JVM start-up dominates the small slices); accounting
+    and vacuity guards exactly as ctx.tlc, done serially afterwards"""
+    from concurrent.futures import ThreadPoolExecutor
+    import core
+    import tlc as _tlc
+
+    def one(job):
+        try:
+            return _tlc.run_tlc("Balance_MC", job["cfg"], workers=workers,
+                                coverage=bool(job["require_actions"]), timeout=1500)
+        except _tlc.TLCError as e:
+            return e
+    with ThreadPoolExecutor(max_workers=parallel) as ex:
+        results = list(ex.map(one, jobs))
+    for job, res in zip(jobs, results):
+        if isinstance(res, Exception):
+            raise core.MachineryFailure(str(res))
+        res.output = ""
+        ctx.states += res.distinct
+        ctx.transitions += res.generated
+        ctx.tlc_runs.append(dict(module="Balance_MC", cfg=job["cfg"], **res.summary()))
+        for a in job["require_actions"]:
+            t = sum(res.coverage.get(n, (0, 0))[1] for n in {a, a[3:] if a.startswith("Gen") else a})
+            ctx.coverage_actions["Balance_MC!%s" % a] = t
+            if t == 0:
+                raise core.MachineryFailure("vacuity: action %s of Balance_MC never taken under %s" % (a, job["cfg"]))
+        if len(res.cases) < 100:
+            raise core.MachineryFailure("vacuity: %s produced %d cases (< 100)" % (job["cfg"], len(res.cases)))
+    return results
+
+
 def run(ctx):
     import chempy  # noqa
     import core
     slices = QUICK if ctx.quick else THOROUGH
     sampled = False
     batch = []
-    for sl in slices:
+    results = _tlc_many(ctx, [{"cfg": "Balance_MC_%s.cfg" % sl, "require_actions": ACTIONS.get(sl, ())}
+                              for sl in slices])
+    for sl, res in zip(slices, results):
         cfg = "Balance_MC_%s.cfg" % sl
-        res = ctx.tlc("Balance_MC", cfg, require_actions=ACTIONS.get(sl, ()), require_cases=100, timeout=1500)
         cases = res.cases
         classes = set(c["exp"]["c"] for c in cases)
         if sl == "tiny_q" and not {"ray_pos", "ray_neg", "ray_zero", "infeasible", "multi"} <= classes:
             raise core.MachineryFailure("vacuity: classes missing in %s: %s" % (sl, sorted(classes)))
-        budget = QUICK_PER_SLICE if ctx.quick else THOROUGH_PER_SLICE.get(sl)
+        budget = QUICK_PER_SLICE_SPECIAL.get(sl, QUICK_PER_SLICE) if ctx.quick else THOROUGH_PER_SLICE.get(sl)
         sel = ctx.pick(cases, budget)
         sampled = sampled or len(sel) < len(cases)
         for c in sel:
@@ -614,7 +734,7 @@ def run(ctx):
                 batch.append((inp, obs, d, "spec->code", cfg))
         ctx.counters["direct_agree"] += len(agreeing)
         ctx.rng.shuffle(agreeing)
-        batch += agreeing[:50 if ctx.quick else 1000]   # cross-check of the two formulations
+        batch += agreeing[:30 if ctx.quick else 1000]   # cross-check of the two formulations
         if sel:
             ctx.sample({"slice": sl, "problem": problem_text(sel[0]["in"]), "mode": sel[0]["in"]["mode"],
                         "exp": {k: sel[0]["exp"][k] for k in ("kind", "sols", "exc", "c")}}, cap=12)
@@ -622,6 +742,8 @@ def run(ctx):
 
     # ---- code -> spec: beyond the bounds, judged by TLC
     inps = _seeded(ctx.rng, 800 if ctx.quick else 8000)
+    for inp in inps:
+        inp["form"] = rand_form(ctx.rng, inp)
     outs = ctx.pmap(_observe_inp, inps)
     for inp, obs in zip(inps, outs):
         ctx.ran(matrix_id(inp))
@@ -632,6 +754,8 @@ def run(ctx):
 
     # finely resolved fractional compositions (scale 10^4 / 10^5)
     fine = _fine(ctx.rng, 150 if ctx.quick else 2000)
+    for inp in fine:
+        inp["form"] = dict(rand_form(ctx.rng, inp), num="int")      # amounts are floats already
     outs = ctx.pmap(_observe_inp, fine)
     for inp, obs in zip(fine, outs):
         ctx.ran(matrix_id(inp))
@@ -643,6 +767,8 @@ def run(ctx):
 
     # many-species problems (11..14) with a positive solution known by construction
     big = _trees(ctx.rng, 150 if ctx.quick else 1500)
+    for inp in big:
+        inp["form"] = rand_form(ctx.rng, inp)
     outs = ctx.pmap(_observe_inp, big)
     for inp, obs in zip(big, outs):
         ctx.ran(matrix_id(inp))
